@@ -75,7 +75,8 @@ ProjFlow(k) == LET f == Fl(S, k) IN
 Proj == [flows |-> [k \in 1..Len(S.flows) |-> ProjFlow(k)],
          index |-> [i \in 1..Len(S.index) |-> <<S.index[i].k, S.index[i].hid, S.index[i].name>>],
          queue_len |-> Len(S.queue),
-         out |-> [i \in 1..Len(S.out) |-> [name |-> S.out[i].name, act |-> S.out[i].act]],
+         out |-> [i \in 1..Len(S.out) |-> [name |-> S.out[i].name, act |-> S.out[i].act,
+                                            args |-> IF S.out[i].act = 0 THEN [q \in 1..Len(S.out[i].args) |-> <<S.out[i].args[q][1], S.out[i].args[q][2]>>] ELSE <<>>]],
          actions |-> [a \in 1..Len(S.actions) |-> [name |-> S.actions[a].name, status |-> S.actions[a].status, scope |-> S.actions[a].scope]]]
 EmitState == PrintT(ToJson([hist |-> hist, proj |-> Proj]))
 
